@@ -391,9 +391,17 @@ func (ft *FT) localResolver(at *ssa.BasicBlock, atHead bool, shadow map[ssa.Valu
 			depth  int
 			idx    int
 			inHead bool
+			obj    types.Object
 		}
 		var best *cand
+		// a variable that lives in a cell (address taken: &v passed on, captured by a closure) is read from the cell
+		// in the current state - an earlier load of it recorded by a DebugRef is stale after a later store
+		addrOf := map[types.Object]*cand{}
 		consider := func(c cand) {
+			if c.isAddr && c.obj != nil {
+				cp := c
+				addrOf[c.obj] = &cp
+			}
 			if best == nil || c.depth > best.depth || (c.depth == best.depth && c.idx > best.idx) {
 				cp := c
 				best = &cp
@@ -431,12 +439,12 @@ func (ft *FT) localResolver(at *ssa.BasicBlock, atHead bool, shadow map[ssa.Valu
 						continue
 					}
 					if x.IsAddr {
-						consider(cand{v: x.X, isAddr: true, depth: domDepth(db), idx: idx})
+						consider(cand{v: x.X, isAddr: true, depth: domDepth(db), idx: idx, obj: x.Object()})
 						continue
 					}
 					if db == at && atHead {
 						if _, ok := shadow[x.X]; ok {
-							consider(cand{v: x.X, depth: domDepth(db), idx: idx, inHead: true})
+							consider(cand{v: x.X, depth: domDepth(db), idx: idx, inHead: true, obj: x.Object()})
 						}
 						continue
 					}
@@ -445,13 +453,16 @@ func (ft *FT) localResolver(at *ssa.BasicBlock, atHead bool, shadow map[ssa.Valu
 							continue // not yet translated at this program point
 						}
 					}
-					consider(cand{v: x.X, depth: domDepth(db), idx: idx})
+					consider(cand{v: x.X, depth: domDepth(db), idx: idx, obj: x.Object()})
 				case *ssa.Phi:
 					if x.Comment == name && visible(b) && !(b == at && atHead) {
 						consider(cand{v: x, depth: domDepth(b), idx: 0})
 					}
 				}
 			}
+		}
+		if best != nil && !best.isAddr && best.obj != nil && addrOf[best.obj] != nil {
+			best = addrOf[best.obj]
 		}
 		if best != nil {
 			if best.isAddr {
